@@ -39,5 +39,7 @@ IndInit ==
   /\ queue = Gen(4) /\ reqd = Gen(4) /\ started = Gen(4)
   /\ running = Gen(1) /\ known = Gen(5) /\ fin = Gen(5) /\ ret = Gen(5)
   /\ IndInvA
+\* base case and induction step in one query (quick tier): state 0 is an initial state or any IndInv state
+BaseOrIndInit == Init \/ IndInit
 Props == Mutex /\ FIFO /\ ReturnAfterFinish /\ MutexInv
 =============================================================================
